@@ -32,6 +32,7 @@ func (x *Exec) doCallVals(st *State, cc *ssa.CallCommon, fnv V, args []V, site s
 		sig := cc.Method.Type().(*types.Signature)
 		names := append([]string{"self"}, paramNames(sig)...)
 		all := append([]V{fnv}, args...)
+		x.atCall(st, fr, key, all, site) // arg0 is the interface value, arg1.. the arguments
 		if con == nil {
 			x.warn("no contract for interface method %s: results and heap havocked", key)
 			con = &Contract{Func: key, Assigns: []string{"H"}, AssignsSet: true}
@@ -83,7 +84,7 @@ func mentionsCallRecords(e *CExpr) bool {
 	if e == nil {
 		return false
 	}
-	if e.Op == "ident" && (strings.HasPrefix(e.Tok, "called_") || strings.HasPrefix(e.Tok, "call_")) {
+	if e.Op == "ident" && (strings.HasPrefix(e.Tok, "called_") || strings.HasPrefix(e.Tok, "call_") || strings.HasPrefix(e.Tok, "loopdone_") || strings.HasPrefix(e.Tok, "exit_")) {
 		return true
 	}
 	for _, a := range e.Args {
@@ -468,6 +469,11 @@ func (x *Exec) applyContract(st *State, fr *Frame, con *Contract, key string, na
 			}
 		}
 		rec := callRec{args: targs, results: results, seq: x.fresh}
+		for _, r := range x.recStack {
+			if r.calls != nil {
+				r.calls[shortCallName(key)] = sig
+			}
+		}
 		for _, f := range st.frames {
 			if f.lastCall == nil {
 				f.lastCall = map[string]callRec{}
@@ -915,6 +921,8 @@ func (x *Exec) atCall(st *State, fr *Frame, key string, args []V, site ssa.Instr
 		for k, a := range args {
 			vars[fmt.Sprintf("arg%d", k)] = a
 		}
+		// the calls made so far (most recent per callee)
+		x.bindCallRecords(st, fr.fn, vars, fr.lastCall)
 		env := &CEnv{st: st, oldMem: fr.entryMem, headMem: fr.headMem, vars: vars, tparam: x.tparam, fn: x.key, prove: true}
 		for _, fv := range fr.fn.FreeVars {
 			if cv, ok := st.env[fv]; ok && cv.K == KPtr {
